@@ -252,6 +252,16 @@ func iterOrderIndependent(w *World, fn *ssa.Function, c ssa.CallInstruction) (bo
 						}
 					case *ssa.DebugRef:
 					default:
+						// sort.Reverse(x) wraps the same slice
+						if rc, ok := u.(*ssa.Call); ok {
+							if rf, _ := calleeOf(rc.Common()); rf != nil && fnPkgPath(rf) == "sort" && rf.Name() == "Reverse" {
+								if !aliases[rc] {
+									aliases[rc] = true
+									work = append(work, rc)
+								}
+								continue
+							}
+						}
 						uses = append(uses, u)
 					}
 				}
